@@ -27,7 +27,7 @@ func pickU16(r *rand.Rand) int {
 	return r.Intn(65536)
 }
 
-var labelPool = []string{"L0", "L1", "L2", "L3", "L4", "L5"}
+var labelPool = []string{"L0", "L1", "L2", "L3", "L4", "L5", ""} // (the empty string is a legal label name)
 
 var notStraight = map[string]bool{
 	"JSR_abs": true, "JSL": true, "JSL_lhb": true, "JML": true, "RTS": true, "RTL": true, "RTI": true, "PLP": true,
@@ -46,7 +46,9 @@ func randArgs(r *rand.Rand, name string, straight bool) []interface{} {
 			a = append(a, labelPool[r.Intn(len(labelPool))])
 		case reflect.Uint32:
 			hi := r.Intn(256)
-			if r.Intn(6) == 0 {
+			if r.Intn(4) == 0 {
+				hi = 0 // bank $00 operands (while the program itself sits in another bank)
+			} else if r.Intn(6) == 0 {
 				hi = 0x100 + r.Intn(0x7E00) // bits above 24 must be ignored (kept below 2^31 for TLC)
 			}
 			a = append(a, pickU16(r), hi)
@@ -122,8 +124,7 @@ func measure(calls []callT, gen bool) int {
 			invoke(e, c)
 		}
 	}
-	s := e.VerifState()
-	return int(s.Address - s.Base)
+	return int(e.PC() - e.GetBase())
 }
 
 var decodeCounter int
@@ -230,7 +231,17 @@ func labelScenario(r *rand.Rand) scenarioT {
 		var nc []callT
 		nc = append(nc, calls[:split]...)
 		nc = append(nc, callT{"Clone", []interface{}{1 << 12}})
-		nc = append(nc, calls[split:app]...)
+		if app-split >= 2 && r.Intn(3) == 0 { // a nested split: the clone is cloned in turn
+			s2 := split + r.Intn(app-split+1)
+			a2 := s2 + r.Intn(app-s2+1)
+			nc = append(nc, calls[split:s2]...)
+			nc = append(nc, callT{"Clone", []interface{}{1 << 12}})
+			nc = append(nc, calls[s2:a2]...)
+			nc = append(nc, callT{"Append", []interface{}{}})
+			nc = append(nc, calls[a2:app]...)
+		} else {
+			nc = append(nc, calls[split:app]...)
+		}
 		nc = append(nc, callT{"Append", []interface{}{}})
 		nc = append(nc, calls[app:]...)
 		calls = nc
@@ -256,6 +267,26 @@ func randomScenario(r *rand.Rand, profile string) scenarioT {
 	}
 	if profile == "labels" {
 		return labelScenario(r)
+	}
+	if profile == "far" {
+		// branches whose label is almost a whole bank away (distances that wrap to a small value in 16-bit arithmetic)
+		sc := scenarioT{Gen: false}
+		n := 65536 - 130 + r.Intn(133)
+		blk := make([]interface{}, n)
+		for i := range blk {
+			blk[i] = (i*7 + 1) & 0xFF
+		}
+		lm := []string{"BNE", "BRA", "BCC"}[r.Intn(3)]
+		calls := []callT{{"SetBase", []interface{}{(1 + r.Intn(0x7D)) << 16}}}
+		if r.Intn(2) == 0 {
+			calls = append(calls, callT{lm, []interface{}{"L0"}}, callT{"EmitBytes", blk}, callT{"Label", []interface{}{"L0"}})
+		} else {
+			calls = append(calls, callT{"Label", []interface{}{"L0"}}, callT{"EmitBytes", blk}, callT{lm, []interface{}{"L0"}})
+		}
+		calls = append(calls, callT{"Finalize", []interface{}{}})
+		sc.Cap = n + 2
+		sc.Calls = calls
+		return sc
 	}
 	methods := emitMethods()
 	sc := scenarioT{Gen: r.Intn(10) < 7}
@@ -412,7 +443,17 @@ func randomScenario(r *rand.Rand, profile string) scenarioT {
 		var nc []callT
 		nc = append(nc, calls[:split]...)
 		nc = append(nc, callT{"Clone", []interface{}{1 << 16}})
-		nc = append(nc, calls[split:app]...)
+		if app-split >= 2 && r.Intn(4) == 0 { // a nested split: the clone is cloned in turn
+			s2 := split + r.Intn(app-split+1)
+			a2 := s2 + r.Intn(app-s2+1)
+			nc = append(nc, calls[split:s2]...)
+			nc = append(nc, callT{"Clone", []interface{}{1 << 16}})
+			nc = append(nc, calls[s2:a2]...)
+			nc = append(nc, callT{"Append", []interface{}{}})
+			nc = append(nc, calls[a2:app]...)
+		} else {
+			nc = append(nc, calls[split:app]...)
+		}
 		nc = append(nc, callT{"Append", []interface{}{}})
 		nc = append(nc, calls[app:]...)
 		calls = nc
@@ -441,6 +482,19 @@ func randomScenario(r *rand.Rand, profile string) scenarioT {
 	}
 	if baseAt >= 0 && size > 0 && size < 0x8000 && r.Intn(5) == 0 {
 		calls[baseAt].A = []interface{}{(1+r.Intn(0x7D))<<16 + 0x10000 - size - []int{0, 0, 1, 3}[r.Intn(4)]}
+	}
+	// ... or so that it runs ACROSS a bank boundary (addresses are linear 24-bit values for the listings; programs with
+	// label references stay inside one bank, the domain of Finalize)
+	if baseAt >= 0 && size > 20 && size < 0x8000 && r.Intn(6) == 0 {
+		hasRef := false
+		for _, c := range calls {
+			if c.M != "Label" && c.M != "Comment" && isLabelMethod(c.M) {
+				hasRef = true
+			}
+		}
+		if !hasRef {
+			calls[baseAt].A = []interface{}{(1+r.Intn(0x7D))<<16 + 0x10000 - 1 - r.Intn(size-1)}
+		}
 	}
 	switch r.Intn(10) {
 	case 0:
@@ -493,6 +547,9 @@ func randomScenario(r *rand.Rand, profile string) scenarioT {
 
 func isLabelMethod(m string) bool {
 	mt := reflect.TypeOf(&asm.Emitter{})
-	mm, _ := mt.MethodByName(m)
+	mm, ok := mt.MethodByName(m)
+	if !ok { // pseudo-calls of the scenario language (Clone, Append, Hex, ...)
+		return false
+	}
 	return mm.Type.NumIn() == 2 && mm.Type.In(1).Kind() == reflect.String
 }
